@@ -4,6 +4,7 @@
 # applies each archived patch there, runs the checks recorded as detecting it, reverts it.
 cd "$(dirname "$0")/.."
 export VERIF_REPO=${VP_RUN_REPO:?needs vp run --with-repo}
+[ -f $VERIF_REPO/Cargo.lock ] || cp /repo/Cargo.lock $VERIF_REPO/Cargo.lock   # untracked in /repo, so not in the snapshot
 ./check --setup | tail -2
 ok=0; bad=0
 for d in seeded/${1}*/; do
